@@ -67,6 +67,20 @@ func TestVerifReplay(t *testing.T) {
 	bl4.status = p2p.NetworkStatusAvailable
 	b4.sequence.Store(50); b4.block()
 	if len(bl4.blocked) != 0 { fail("peer flagged while the network was unavailable was blocklisted"); return }
+
+	// the clock counts only ticks at which the network answered "available"
+	saved := sequencerResolution
+	sequencerResolution = time.Millisecond
+	defer func() { sequencerResolution = saved }()
+	for _, status := range []p2p.NetworkStatus{p2p.NetworkStatusUnknown, p2p.NetworkStatusUnavailable} {
+		bl5 := &verifBL{status: status}
+		b5 := New(bl5, 100*time.Millisecond, time.Minute, time.Hour, nil, logging.New(io.Discard, 0))
+		before := b5.sequence.Load()
+		time.Sleep(120 * time.Millisecond)
+		after := b5.sequence.Load()
+		b5.Close()
+		if after != before { fail("the clock advanced from %d to %d while the network status was %d (not available)", before, after, status); return }
+	}
 	t.Logf("not reproduced")
 }
 '''
